@@ -14,6 +14,7 @@ package main
 //     steps s<k> source writes the next k stream bytes     p<ms> pause
 //           w    close(ds.WaitFull)                         q     wait until the ACKs have settled
 //           d    source closes the connection gracefully (FIN), accepts the reconnect, answers +CONTINUE
+//           D<k> / X<k>  as d / x, the +CONTINUE line and the next k stream bytes leave the source in ONE write (one segment)
 //           x    source resets the connection (RST; bytes in flight may be lost), then as d
 //           e    as d but the source answers -ERR (the tool sleeps 30 s and carries on on that connection)
 //           h    an hour without retries passes (ds.lastRetry moved back; incrementRetryCounter restarts at 0)
@@ -198,6 +199,9 @@ func c08History(g *gen, kind string, drops int, long bool, abrupt bool) string {
 		case g.r.Intn(3) == 0:
 			b.burst() // traffic right before the close: no tick has seen it yet
 			b.drop("d")
+		case g.r.Intn(2) == 0:
+			// the reconnect is answered with +CONTINUE and the first backlog bytes in one segment
+			b.drop(fmt.Sprintf("%c%d", "DX"[g.r.Intn(2)], []int{1, 17, 34, 300, 5000}[g.r.Intn(5)]))
 		default:
 			b.drop("d")
 		}
@@ -567,6 +571,7 @@ func c08RunHistory(f []string) string {
 		return func() bool { return s.pipeN >= want || s.pipeEOF }
 	}
 	stopped := ""
+	coalesce := 0 // > 0: the next +CONTINUE answer carries that many stream bytes in the same write
 	reconnect := func(reply string) bool {
 		var nc *c08Conn
 		select {
@@ -599,7 +604,20 @@ func c08RunHistory(f []string) string {
 			return false
 		}
 		srcPos = off
-		cur.c.Write([]byte("+CONTINUE\r\n"))
+		out := []byte("+CONTINUE\r\n")
+		if coalesce > 0 {
+			for i := 0; i < coalesce; i++ {
+				if kind == "tags" {
+					out = append(out, c08CmdStream[int((srcPos+int64(i)-start-1)%int64(len(c08CmdStream)))])
+				} else {
+					out = append(out, c08Byte(srcPos+int64(i)))
+				}
+			}
+			s.logf("s%d", coalesce)
+			srcPos += int64(coalesce)
+			coalesce = 0
+		}
+		cur.c.Write(out)
 		return true
 	}
 
@@ -638,6 +656,19 @@ steps:
 		case 'h':
 			s.logf("h")
 			v.QuietHour()
+		case 'D', 'X':
+			coalesce = arg
+			if st[0] == 'D' {
+				s.logf("d")
+				cur.c.CloseWrite()
+			} else {
+				s.logf("x")
+				cur.c.SetLinger(0)
+				cur.c.Close()
+			}
+			if !reconnect("cont") {
+				break steps
+			}
 		case 'd', 'e':
 			s.logf("%c", st[0])
 			cur.c.CloseWrite()
